@@ -698,6 +698,29 @@ func c01CliTweaks(g *G, L *Layout) {
 		L.Files[L.WorkingDir+"/.env"] = g.envFileContent("dotenv", nil) + "COMPOSE_PROJECT_NAME=fromdotenv\n"
 	}
 	L.OSEnv = []string{"PATH=/bin", "HOME=" + L.Home}
+	if g.chance("cli-env-files", 1, 3) {
+		// explicit --env-file arguments: explicitly referenced files, a missing one must be reported
+		n := 1 + g.n("cli-nenvfiles", 2)
+		for i := 0; i < n; i++ {
+			p := fmt.Sprintf("%s/cli_env_f%d.env", L.WorkingDir, i)
+			L.Files[p] = g.envFileContent("cli-envfile", nil)
+			L.CliEnvFiles = append(L.CliEnvFiles, p)
+			L.Required = append(L.Required, p)
+		}
+	}
+	if g.chance("cli-stdin", 1, 6) && len(L.Main) == 1 {
+		// the compose file comes from standard input
+		L.Stdin = L.Files[L.Main[0]]
+		var req []string
+		for _, p := range L.Required {
+			if p != L.Main[0] {
+				req = append(req, p)
+			}
+		}
+		L.Required = req
+		L.Main = []string{"-"}
+		return
+	}
 	if g.chance("cli-osenv-name", 1, 3) {
 		L.OSEnv = append(L.OSEnv, "COMPOSE_PROJECT_NAME=fromos")
 	}
